@@ -99,7 +99,8 @@ class SigmaRuleBase:
         """
         errors = []
         if not isinstance(rule, dict):
-            raise sigma_exceptions.SigmaTypeError("Sigma rule must be a map", source=source)
+            errors.append(sigma_exceptions.SigmaTypeError("Sigma rule must be a map", source=source))
+            rule = dict()
 
         def get_rule_as_date(name: str, exception_class: type[SigmaError]) -> date | None:
             """
